@@ -367,6 +367,62 @@ theorem shared_write_interferes (h : Heap) (a b : Loc) (f g : String) (sh sh' : 
     Content.arr.injEq, List.cons.injEq, and_true, true_and] at this
   exact hv this.symm
 
+/-! ### ndarray-valued descriptors: a label array handed out instead of a copy (round 4) -/
+
+/-- an RDMs object whose pattern descriptor `stim` is an **ndarray** (ascending, repeat-free): the
+    elements of the array are heap cells, listed by the attribute `pattern_descriptors[stim]` that is
+    held inside the dictionary (a list-valued descriptor has no such cells: `np.asarray` copies it) -/
+def labelHeap : Heap :=
+  { cells := fun l => match l with
+      | 0 => .obj [("dissimilarities", .arr [1, 3] [1, 2, 3]), ("descriptors", .dict 4),
+                   ("rdm_descriptors", .dict 5), ("pattern_descriptors", .dict 6),
+                   ("pattern_descriptors[stim]", .arr [3] [7, 8, 9])]
+      | 1 => .val "1.0" | 2 => .val "2.0" | 3 => .val "-3.0"
+      | 4 => .dict [("subj", ["7"])]
+      | 5 => .dict [("name", ["r0"]), ("index", ["0"])]
+      | 6 => .dict [("index", ["0", "1", "2"])]
+      | 7 => .val "10" | 8 => .val "11" | 9 => .val "12"
+      | _ => .free,
+    next := 10 }
+
+/-- `util.rdm_utils.add_pattern_index` with a "the descriptor is already ascending and repeat-free:
+    skip `np.unique`" fast path (seeded change C12-8): the `pattern_select` it returns *is* the
+    argument's descriptor array -/
+def patternSelectFastPath : Producer :=
+  { srcWrites := [], fields := [("pattern_select", .share "pattern_descriptors[stim]")] }
+
+/-- as coded: `np.unique` allocates -/
+def patternSelectAsCoded : Producer :=
+  { srcWrites := [], fields := [("pattern_select", .freshArr [3] ["10", "11", "12"])] }
+
+/-- **ndarray-valued descriptor handed out**: the fast path is not `fresh`, its result is not
+    separated from the argument, and the in-place shuffle that `sets_k_fold_pattern(random=True)` /
+    `sets_random` apply to what they were handed (an array write on the *result*) relabels the
+    *argument* — the dissimilarities stay put.  As coded (`np.unique` allocates) the producer is
+    fresh, separated, and the very same shuffle leaves the argument's labelled content unchanged.
+    Under either dictionary discipline: array writes do not depend on it. -/
+theorem label_array_alias_counterexample (d : Disc) :
+    (let hc := produce labelHeap 0 patternSelectFastPath
+     patternSelectFastPath.fresh = false ∧ sepB d hc.1 [0] [hc.2] = false ∧
+     content hc.1 0 = content labelHeap 0 ∧
+     content (step d hc.1 hc.2 (.fill "pattern_select" ["12", "10", "11"])) 0 ≠ content labelHeap 0 ∧
+     readArr (step d hc.1 hc.2 (.fill "pattern_select" ["12", "10", "11"])) 0 "pattern_descriptors[stim]"
+       = ([3], ["12", "10", "11"]) ∧
+     readArr (step d hc.1 hc.2 (.fill "pattern_select" ["12", "10", "11"])) 0 "dissimilarities"
+       = ([1, 3], ["1.0", "2.0", "-3.0"])) ∧
+    (let hk := produce labelHeap 0 patternSelectAsCoded
+     patternSelectAsCoded.fresh = true ∧ sepB d hk.1 [0] [hk.2] = true ∧
+     content (step d hk.1 hk.2 (.fill "pattern_select" ["12", "10", "11"])) 0 = content labelHeap 0) := by
+  cases d <;> decide +kernel
+
+/-- the general theorem behind the witness, instantiated: `shared_write_interferes` applies to a
+    *held* label array on the argument side (its hypotheses are satisfiable with `g` held) -/
+example (d : Disc) :
+    let hc := produce labelHeap 0 patternSelectFastPath
+    heldInDict "pattern_descriptors[stim]" = true ∧ heldInDict "pattern_select" = false ∧
+    lookupField (fieldsOf (hc.1.cells hc.2)) "pattern_select" = some (.arr [3] [7, 8, 9]) := by
+  decide +kernel
+
 /-! ### derived-object constructors of `RDMs` (heap programs `ctorProducer`) -/
 
 /-- the multi-source form of `fresh_producer_sep`: a fresh producer leaves the labelled content
